@@ -137,6 +137,10 @@ site('expr.c', 'mkbinaryexpr', 'error', "pointer operands to '-' are to incompat
 site('expr.c', 'mkbinaryexpr', 'fatal', 'internal error: unknown binary operator %d', J('internal', 'callers pass binary operator tokens only'))
 site('expr.c', 'mkincdecexpr', 'error', "operand of '%s' operator is const qualified",
      X('++ci_', "'++'"), X('ci_--', "'--'"), X('(*cip_)++', "'++'"), X('--cip_[1]', "'--'"))
+site('expr.c', 'mkincdecexpr', 'error', "operand of '%s' operator must have real or pointer type",
+     X('sv_++', "'++'", note='regression (fixed 8c9fd0a): was an internal error "not a scalar"'), X('--uv_', "'--'"), X('sv_.in_--', "'--'"))
+site('expr.c', 'mkincdecexpr', 'error', "pointer operand of '%s' operator must be to complete object type",
+     X('fp_++', "'++'", note='regression (fixed 8c9fd0a): added the uninitialised size of the function type'), X('--vp_', "'--'", gcc=True), X('up_++', "'++'"), X('++up_', "'++'"))
 site('expr.c', 'mkincdecexpr', 'error', "operand of '%s' operator must be an lvalue",
      X('++5', "'++'"), X('h_sink(1)++', "'++'"), X('--(h_v + 1)', "'--'"), X('h_v++ ++', "'++'"), X('sv_.arr_++', "'++'", note='regression (fixed df7da54)'), X('--sp_->arr_', "'--'"))
 site('expr.c', 'mkunaryexpr', 'error', "'&' operand is not an lvalue or function designator",
